@@ -374,6 +374,78 @@ def pulses_rule(ctx, repo):
             else:
                 ctx.ok({'pulses per bit': np, 'used bits': used, 'edges': len(want)})
 
+def composition_rule(ctx, repo):
+    """C11.6: what a block contributes to the edge list depends only on the block and on (time, signal level) where it starts - not on
+    which blocks came before.  get_edges([A, B]) is folded against get_edges([P, B]) for a plain pulse block P that ends at the same time
+    and level as A: the edges after the first block, and B's reported data range relative to them, must be identical.  Catches state carried
+    across blocks (decoder variables, timing tables cached under an incomplete key, indices taken before an adjustment edge)."""
+    from sa.core.classfold import ClassFolder
+    ctx.rule('C11.6-composition', 'edges and data range contributed by a block depend only on the block and on the (time, level) at which it starts: get_edges([A, B]) tail == get_edges([P, B]) tail for an equivalent plain prefix P', floor=40)
+    cf = ClassFolder(repo, 'tape')
+    def timings(**kw):
+        return cf.new('TapeBlockTimings', **kw)
+    def block(n, data, t):
+        b = cf.new('TapeBlock', n, data, t)
+        b.keys = None          # tap2sna attaches the key presses for the block before get_edges is called
+        return b
+    def family():
+        fam = []
+        fam.append(('bytes 1 pulse/bit', lambda: block(1, [0xA5, 0x0F], timings(pulses=((3, 500), (1, 120), (1, 130)), zero=(100,), one=(200,), used_bits=8))))
+        fam.append(('bytes 2 pulses/bit', lambda: block(1, [0x5A, 0xC3], timings(pulses=((2, 400),), zero=(100, 110), one=(100, 310), used_bits=6))))
+        fam.append(('bytes same first pulse, longer sequences', lambda: block(1, [0x5A, 0xC3], timings(zero=(100, 110, 120), one=(100, 310, 320), used_bits=8))))
+        fam.append(('samples leaving an even number of edges', lambda: block(1, [0b10100000], timings(zero=(70, 0), one=(0, 70), used_bits=4))))
+        fam.append(('samples leaving an odd number of edges', lambda: block(1, [0b10000000], timings(zero=(70, 0), one=(0, 70), used_bits=3))))
+        fam.append(('samples all ones', lambda: block(1, [0xFF], timings(zero=(90, 0), one=(0, 90), used_bits=8))))
+        fam.append(('pure tone', lambda: block(1, [], timings(pulses=((5, 300),)))))
+        fam.append(('bytes with polarity 0', lambda: block(1, [0x81], timings(pulses=((2, 400),), zero=(100,), one=(200,), polarity=0))))
+        fam.append(('bytes with polarity 1', lambda: block(1, [0x81], timings(pulses=((1, 400),), zero=(100,), one=(200,), polarity=1))))
+        return fam
+    fam = family()
+    def fold(blocks):
+        r = cf.call_func('tape', 'get_edges', [blocks])
+        edges, dbs = r[0], r[1]
+        return list(edges), [(d.start, d.end, list(d.data), d.fast_load) for d in dbs]
+    for an, amk in fam:
+        for bn, bmk in fam:
+            name = '[%s] then [%s]' % (an, bn)
+            try:
+                ea, da = fold([amk()])
+                eab, dab = fold([amk(), bmk()])
+                t_end, parity = ea[-1], (len(ea) - 1) % 2
+                if t_end < 2:
+                    ctx.limit(name, 'prefix too short to mimic')
+                    continue
+                # plain prefix with the same end time and level: one pulse (odd parity) or two pulses (even parity)
+                pp = ((1, t_end),) if parity else ((1, 1), (1, t_end - 1))
+                P = block(1, [], timings(pulses=pp))
+                ep, dp_ = fold([P])
+                epb, dpb = fold([P, bmk()])
+            except NotLiteral as e:
+                ctx.limit(name, 'get_edges not foldable: %s' % e)
+                continue
+            except (KeyError, IndexError, ValueError, TypeError, AttributeError) as e:
+                ctx.violation(name, 'skoolkit/tape.py (get_edges)', 'get_edges fails on the tape %s with %s: %s' % (name, type(e).__name__, e))
+                continue
+            if ep[-1] != t_end or (len(ep) - 1) % 2 != parity:
+                ctx.limit(name, 'could not build an equivalent plain prefix')
+                continue
+            # a block that starts with a zero-length pulse extends the last edge of the block before it, so that edge belongs to the tail
+            tail_ab, tail_pb = eab[len(ea) - 1:], epb[len(ep) - 1:]
+            pre_ok = eab[:len(ea) - 1] == ea[:-1]
+            db_ab = [(s_ - len(ea), e_ - len(ea), d_, f_) for s_, e_, d_, f_ in dab[-1:]]
+            db_pb = [(s_ - len(ep), e_ - len(ep), d_, f_) for s_, e_, d_, f_ in dpb[-1:]]
+            if not pre_ok:
+                ctx.violation(name, 'skoolkit/tape.py (get_edges)', 'the edges of the first block change when another block follows it: alone %s, followed %s' % (ea[-6:], eab[:len(ea)][-6:]))
+            elif tail_ab != tail_pb:
+                k = next((i for i, (x, y) in enumerate(zip(tail_ab, tail_pb)) if x != y), min(len(tail_ab), len(tail_pb)))
+                ctx.violation(name, 'skoolkit/tape.py (get_edges)', 'block [%s] starting at T=%d, level %d yields different edges after [%s] than after a plain pulse block ending at the same time and level: edge %d of the block is %s vs %s (%d vs %d edges): state leaks from the previous block' %
+                              (bn, t_end, parity, an, k, tail_ab[k:k + 3], tail_pb[k:k + 3], len(tail_ab), len(tail_pb)))
+            elif db_ab != db_pb:
+                ctx.violation(name, 'skoolkit/tape.py (get_edges)', 'data range reported for block [%s] differs by what precedes it: %s after [%s], %s after a plain pulse block' %
+                              (bn, [(x[0], x[1]) for x in db_ab], an, [(x[0], x[1]) for x in db_pb]))
+            else:
+                ctx.ok({'first': an, 'second': bn, 'edges of second': len(tail_ab)})
+
 def run(ctx):
     repo = pyfacts.Repo(ctx.repo_root)
     pulses_rule(ctx, repo)
@@ -381,6 +453,7 @@ def run(ctx):
     lengths_rule(ctx, repo)
     monotonic_rule(ctx, repo)
     start_index_rule(ctx, repo)
+    composition_rule(ctx, repo)
     from sa.rules import memo
     memo.run_for(ctx, repo, 'C11')
     return report.finish(ctx, EXPLANATION)
